@@ -28,6 +28,7 @@ META = {
     "assumptions": ["PartialEq / Hash of the user's T are deterministic", "the 64-bit version counter does not wrap"],
 }
 META["explanation"] += ' Shared clauses: R04.3 (next_now / next_ref_now read the value and mark the version under one guard) and the close / wake group.'
+META["explanation"] += ' R01.6b a function that replaces the state handle of an existing Subscriber (clone_from, mem::replace, assignment) stores the matching observed version on every path.'
 
 STATE = "state::ObservableState::<T>::"
 CALL_CLOSURE = r"(FnOnce|FnMut|Fn)(<.*>>?)?::call(_once|_mut)?$"
